@@ -3,7 +3,7 @@
    script (main body and every function body, before and after optimisation). *)
 From Coq Require Import Floats.
 From EF Require Import Model.Base Gen.Tables Model.Lexer Model.Ast Model.Parser Model.Code Model.Value Model.Env
-                       Model.Reflect Model.Compiler Model.Optimizer Model.VM Model.Verifier Spec.Moded Proofs.VerifierProofs Proofs.StructProofs.
+                       Model.Reflect Model.Compiler Model.Optimizer Model.VM Model.Verifier Spec.Moded Proofs.VerifierProofs Proofs.StructProofs Proofs.ModedProofs.
 Open Scope N_scope.
 
 (* what acceptance by the verifier means, instruction by instruction *)
@@ -61,3 +61,46 @@ Theorem C18_compile_structure : forall fuel (ast : program) p,
   StructProofs.body_ok (pconsts p) (pmain p) /\
   Forall (fun nf => StructProofs.body_ok (pconsts p) (fcode (snd nf)) /\ StructProofs.ends_in_return (fcode (snd nf))) (pfuncs p).
 Proof. exact StructProofs.compile_structure. Qed.
+
+(* THE STACK DISCIPLINE, FOR ALL SCRIPTS.  Every well-moded script (value-less constructs only in statement
+   position - the class outside of which Prepare is known to accept underflowing code, finding D19) that the
+   compiler accepts has, for its main body and every function body, a stack-depth annotation that the
+   verifier's check accepts: on every control-flow path no instruction consumes more operands than were
+   produced, given that calls return a value. *)
+Theorem C18_compiled_has_annotation : forall fuel (ast : program) p,
+  well_moded ast = true -> compile_program fuel ast = CompOk p ->
+  ModedProofs.has_ann (pconsts p) (pmain p) /\
+  Forall (fun nf => ModedProofs.has_ann (pconsts p) (fcode (snd nf))) (pfuncs p).
+Proof. exact ModedProofs.compiled_has_annotation. Qed.
+
+(* ... hence a run of ANY body of such a program, calls into other bodies included, never ends in one of the
+   machine's internal errors - unless a call returned no value (`calls_push`: every call executed in the run,
+   transitively, pushed a value): "for reasons other than the script's own use of value-less calls". *)
+Theorem C18_compiled_never_underflows : forall fuelc (ast : program) p,
+  well_moded ast = true -> compile_program fuelc ast = CompOk p ->
+  forall code, ModedProofs.body_of p code ->
+  forall o fns obj fuel m out m', stk m = [] ->
+  exec o (pconsts p) (pfuncs p) fns obj fuel code 0 m = (out, m') ->
+  ModedProofs.calls_push o (pconsts p) (pfuncs p) fns obj fuel code 0 m -> out <> OErr EInternal.
+Proof. exact ModedProofs.compiled_never_underflows. Qed.
+
+(* the same for ANY program the verifier accepts (the check runs it on the implementation's programs, before and
+   after optimisation) *)
+Theorem C18_verifier_sound_calls : forall p, verify_program p = VOk ->
+  forall code, ModedProofs.body_of p code ->
+  forall o fns obj fuel m out m', stk m = [] ->
+  exec o (pconsts p) (pfuncs p) fns obj fuel code 0 m = (out, m') ->
+  ModedProofs.calls_push o (pconsts p) (pfuncs p) fns obj fuel code 0 m -> out <> OErr EInternal.
+Proof. exact ModedProofs.verifier_sound_calls_program. Qed.
+
+(* the side condition is necessary and not vacuous: `x = f();` is well-moded, compiles and verifies; with a host
+   function that returns nothing the run underflows (and calls_push is false), with one that returns 1 it holds *)
+Theorem C18_void_call_underflows :
+  exists p, well_moded ModedProofs.void_call_ast = true /\ compile_program 20 ModedProofs.void_call_ast = CompOk p /\
+    verify_program p = VOk /\
+    let m0 := mkM [] (mkEnv [] []) [] None in
+    (exists m', exec ModedProofs.quiet_stdlib (pconsts p) (pfuncs p) [(L "f", FHost HKVoid)] HNil 20 (pmain p) 0 m0
+                = (OErr EInternal, m')) /\
+    ~ ModedProofs.calls_push ModedProofs.quiet_stdlib (pconsts p) (pfuncs p) [(L "f", FHost HKVoid)] HNil 20 (pmain p) 0 m0 /\
+    ModedProofs.calls_push ModedProofs.quiet_stdlib (pconsts p) (pfuncs p) [(L "f", FHost (HKConst (VInt 1)))] HNil 20 (pmain p) 0 m0.
+Proof. exact ModedProofs.void_call_underflows. Qed.
